@@ -11,7 +11,8 @@ RULE = ("series of 2..6 frames of Voronoi/arc tissues (6..60 cells); displacemen
         "renumbered independently (ids, order, orientation); optional partial initial_guess (correct pairs) and wrong "
         "user pairings; frames with a missing border cell (vanishing vertices); cm on/off. distinct = (cells, frames, "
         "field kinds, cm, guess mode, in-bounds); non-trivial = at least one tracked junction"
-        ' Added after the seeded rounds: rigid drift at 85 % of the bounds (wide), sheared hexagonal tissues at 84..91 % of the bounds (slip: near-ties of the nearest-neighbour search), one dictionary shared as the guess of every step.')
+        ' Added after the seeded rounds: rigid drift at 85 % of the bounds (wide), sheared hexagonal tissues at 84..91 % of the bounds (slip: near-ties of the nearest-neighbour search), one dictionary shared as the guess of every step.'
+        ' Frames dictionaries filled in another order than their keys.')
 MIN_DECISIVE = {"quick": 120, "thorough": 2000}
 REQUIRED_COUNTERS = ["post:create_mapping", "successor:checked", "roundtrip:checked", "guess:checked"]
 TECHNIQUE = ("runtime contract on TimeSeries.create_mapping + comparison of the finished mapping with the generator's truth "
